@@ -395,6 +395,58 @@ def run_H(acc):
                         {'name': name, 'target': target, 'creds': creds},
                         want, got, 'H')
             acc.outcome('H-role-%s' % exp)
+    # the library's debug logging is on and the target is a mapping the log
+    # line cannot render (keys of mixed types, a mapping holding itself, an
+    # opaque value): the decision is the one taken without logging
+    import logging
+
+    class _Fmt(logging.Handler):
+        def emit(self, record):
+            record.getMessage()
+    selfref = {'pid': 'p1'}
+    selfref['me'] = selfref
+    odd = [{'pid': 'p1', 1: 'one'}, selfref, {'pid': 'p1', 'o': object()},
+           {'pid': 'p1', ('a', 'b'): 1}, {'pid': 'p1', None: None}]
+    enf = world.bare_enforcer()
+    world.set_rules(enf, {'g': 'tok.id:%(pid)s', 'r': 'role:%(pid)s',
+                          'n': 'not rule:g', 'c': 'rule:g and role:admin'})
+    creds = {'tok': {'id': 'p1'}, 'roles': ['admin']}
+    for target in odd:
+        for name, want in (('g', True), ('r', False), ('n', False),
+                           ('c', True)):
+            res = {}
+            for debug in (False, True):
+                lg = logging.getLogger('oslo_policy')
+                if debug:
+                    lg.handlers[:] = [_Fmt()]
+                    lg.setLevel(logging.DEBUG)
+                try:
+                    for do_raise in (False, True):
+                        acc.ev()
+                        try:
+                            res[(debug, do_raise)] = ('ok', bool(enf.enforce(
+                                name, target, copy.deepcopy(creds),
+                                do_raise=do_raise)))
+                        except P.PolicyNotAuthorized:
+                            res[(debug, do_raise)] = ('ok', False)
+                        except Exception as e:
+                            res[(debug, do_raise)] = ('exc',
+                                                      type(e).__name__)
+                finally:
+                    if debug:
+                        core.quiet_logging()
+            acc.case('H', True)
+            bad = {k: v for k, v in res.items() if v != ('ok', want)}
+            if bad:
+                acc.violation(
+                    'H|unrenderable-target|%s' % (
+                        'debug-only' if all(k[0] for k in bad) else 'always'),
+                    'rule %s with a target of keys %r: %r (debug logging, '
+                    'do_raise) -> outcome; expected %r everywhere' %
+                    (name, [repr(k) for k in target], bad, want),
+                    {'name': name, 'target_keys': [repr(k) for k in target]},
+                    want, repr(bad), 'H')
+            acc.outcome('H-odd-target-%s' % want)
     acc.sample('H', {'leaves': leaves})
 
 
